@@ -1,6 +1,8 @@
 import Aurora.Lemmas.Accounting
 import Aurora.Lemmas.LockSetProg
 import Aurora.Generated.AccountingLocks
+import Aurora.Lemmas.AtomicRegionUse
+import Aurora.Generated.AccountingMapRegions
 /-!
 # C32 — Per-peer debt tracking is exact and race-free
 
@@ -128,6 +130,62 @@ example : ∃ s, Reachable [[.access 0 false], [.lock 0, .access 0 true, .unlock
   have r2 : Reachable prog s2 := .step _ _ r1 (Step.call s1 1 _ rfl (by simp [prog]))
   have r3 : Reachable prog s3 := .step _ _ r2 (Step.lock s2 1 0 _ rfl rfl)
   exact ⟨s3, r3, 0, 1, 0, false, true, [], [.unlock 0], by decide, rfl, rfl, Or.inr rfl⟩
+
+/-! ### one `accountingPeer` record per peer: lookup and insertion in one `accountingPeersMu` region
+
+The functional clauses treat the operations on one peer as atomic because they run under the lock
+of THE record of that peer.  That needs `getAccountingPeer` to hand the same record to everybody:
+its map lookup and the insertion of a new record must not be separated by a window in which
+another goroutine can do the same.  The extractor regenerates the lock / lookup / insertion events
+of `getAccountingPeer` (`Aurora/Generated/AccountingMapRegions.lean`). -/
+
+/-- Clause 4c (**static obligation**, by evaluation of the regenerated list): in `getAccountingPeer`
+    the locking pattern was recognised, every access of the `accountingPeers` map happens under
+    `accountingPeersMu`, and the insertion `a.accountingPeers[k] = …` is preceded by a lookup in the
+    same critical section (holding the mutex across the `RetrieveTraffic` call, or re-checking after
+    re-locking, both satisfy this).  The seeded change C32-1 (unlock during `RetrieveTraffic`, insert
+    without re-check) generates `[.lock 0, .access 0 false, .unlock 0, .lock 0, .access 0 true, .unlock 0]`
+    and this fails. -/
+theorem C32_get_peer_lookup_insert_one_region :
+    Aurora.Generated.AccountingMapRegions.getAccountingPeer.1 = true ∧
+    AtomicRegion.bodyOk Aurora.Generated.AccountingMapRegions.getAccountingPeer.2 = true ∧
+    AtomicRegion.hasReadWrite Aurora.Generated.AccountingMapRegions.getAccountingPeer.2 = true := by
+  decide
+
+/-- Clause 4d (one record per peer): any number of goroutines running the extracted
+    `getAccountingPeer` body on a peer without a record, in any interleaving: every caller that has
+    got its answer got the SAME record, and that record is the one in the map — no Credit, Reserve or
+    NotifyPayment can work on a private copy whose updates are lost. -/
+theorem C32_one_record_per_peer (d : Option Nat) (s : AtomicRegion.St (Option Nat) Nat)
+    (hr : AtomicRegion.Reach getOrCreate
+            (fun _ => Aurora.Generated.AccountingMapRegions.getAccountingPeer.2) none d s) :
+    (∀ x ∈ s.outs, ∀ y ∈ s.outs, x.2 = y.2) ∧ (∀ x ∈ s.outs, s.cell = some x.2) := by
+  have hser := AtomicRegion.atomic_serial getOrCreate
+    (fun _ => Aurora.Generated.AccountingMapRegions.getAccountingPeer.2)
+    (fun _ => C32_get_peer_lookup_insert_one_region.2.1) none d s hr
+  have hc : s.cell = (AtomicRegion.seqRun getOrCreate none s.log).1 := congrArg Prod.fst hser
+  have ho : s.outs = (AtomicRegion.seqRun getOrCreate none s.log).2 := congrArg Prod.snd hser
+  cases hl : s.log with
+  | nil => rw [hl] at ho; simp [ho, AtomicRegion.seqRun]
+  | cons t l =>
+    rw [hl] at hc ho
+    simp only [AtomicRegion.seqRun, getOrCreate] at hc ho
+    have h := seqRun_getOrCreate_some t l
+    have hall : ∀ x ∈ s.outs, x.2 = t := by
+      intro x hx
+      rw [ho] at hx
+      rcases List.mem_cons.1 hx with e | e
+      · rw [e]
+      · exact h.2 x e
+    refine ⟨fun x hx y hy => by rw [hall x hx, hall y hy], fun x hx => ?_⟩
+    rw [hc, h.1, hall x hx]
+
+/-- the discipline is needed: the shape of the seeded change C32-1 does not pass the check -/
+example : AtomicRegion.bodyOk [.lock 0, .access 0 false, .unlock 0, .lock 0, .access 0 true, .unlock 0] = false := by
+  decide
+/-- … while re-checking after re-locking does -/
+example : AtomicRegion.bodyOk [.lock 0, .access 0 false, .unlock 0, .lock 0, .access 0 false, .access 0 true, .unlock 0] = true := by
+  decide
 
 /-- non-vacuity / sanity of the functional clauses -/
 example :
